@@ -909,6 +909,24 @@ fn conc_op(st: &Store, _names: &[&'static str], t: &mut Toks) -> String {
                 Err(e) => format!("err:{}", db_err(&e)),
             }
         }
+        "vanish" => {
+            let pk = t.b();
+            let tags = pocket_types::OwnedTags::empty();
+            let ev = OwnedEvent::new(
+                Id::from_bytes([0; 32]),
+                Kind::from_u16(62),
+                Pubkey::from_bytes(arr32(&pk)),
+                pocket_types::Sig::from_bytes([0; 64]),
+                &tags,
+                pocket_types::Time::from_u64(0),
+                b"",
+            )
+            .unwrap();
+            match st.vanish(&ev) {
+                Ok(()) => "ok".to_string(),
+                Err(e) => format!("err:{}", db_err(&e)),
+            }
+        }
         "query" => {
             let f = p_filter(t);
             let _screen: Vec<(Vec<u8>, u128)> = t.list(&mut |t| (t.b(), t.n()));
